@@ -151,7 +151,7 @@ func replay(r *hx.Run, lines []string) {
 			if f[1] == "sm" {
 				ans = execSeqSM(r, f[2:])
 			} else {
-				ans = execSeqDag(r, f[2:])
+				ans = execSeqDag(r, f[2:], f[1] == "dagc")
 			}
 			r.Line(l, ans)
 		case "tr", "wt":
@@ -254,6 +254,15 @@ func corpus(r *hx.Run) {
 	seqCase(r, "dagc", []string{"rlock:7", "unlock:7"})
 	seqCase(r, "dagc", []string{"lock:7", "runlock:7"})
 	seqCase(r, "dagc", []string{"rlock:1,2", "runlock:2,1", "runlock:1"})
+	// after a recovered misuse panic: the state the panic leaves behind, and what is granted afterwards
+	seqCase(r, "sm", []string{"rlock", "runlock", "runlock"})
+	seqCase(r, "sm", []string{"rlock", "unlock"})
+	seqCase(r, "dagc", []string{"rlock:1", "runlock:1,2", "lock:1"})       // known finding: entity 1 unregistered before the panic at 2
+	seqCase(r, "dagc", []string{"rlock:1", "unlock:1", "lock:1"})          // known finding: unregistered, then the wrong-mode panic
+	seqCase(r, "dagc", []string{"lock:1", "runlock:1", "rlock:1"})         // the same for RUnlock of a write-locked entity
+	seqCase(r, "dagc", []string{"rlock:1", "runlock:2", "lock:1"})         // nothing unregistered: Lock(1) stays blocked
+	seqCase(r, "dagc", []string{"rlock:1,1", "runlock:1,1,1", "lock:1"})   // duplicates: both registrations gone before the panic
+	seqCase(r, "dagc", []string{"unlock:1", "lock:1"})                     // Unlock's panic leaves d.Mutex locked: frozen
 	gapCorpus(r)
 	extremeCounterCorpus(r)
 	dg := func(n, e int, as ...arrival) { runDagCase(r, 0, n, e, as, 3, false) }
